@@ -223,18 +223,27 @@ class SymCtx(_BaseCtx):
         return v
 
     def choice(self, name: str, n: int) -> int:
-        """A concrete value in range(n), one path per feasible value."""
+        """A concrete value in range(n), one path per feasible value (decided by
+        the solver through the search tree; works with tracing on or off)."""
         if n <= 1:
             return 0
+        if name in self.preset:
+            self.env[name] = self.preset[name]
+            return self.preset[name]
         v = self.int(name, 0, n - 1)
-        for k in range(n - 1):
-            if v == k:
-                return k
-        return n - 1
+        with NoTracing():
+            for k in range(n - 1):
+                if self.space.choose_possible(v.var == k):
+                    return k
+            return n - 1
 
     def flag(self, name: str) -> bool:
         """A concrete bool, one path per value."""
-        return True if self.bool(name) else False
+        b = self.bool(name)
+        if b is True or b is False:
+            return b
+        with NoTracing():
+            return bool(self.space.choose_possible(b.var))
 
     def assume(self, cond: Any) -> None:
         if not cond:
@@ -332,6 +341,7 @@ def explore(
         per_path_s: float = 60.0,
         max_paths: int = 10 ** 9,
         n_samples: int = 3,
+        traced: bool = True,
 ) -> Result:
     """Enumerate the feasible paths of ``harness(ctx, **params)``."""
     t0 = time.process_time()
@@ -369,7 +379,12 @@ def explore(
                     ctx = SymCtx(space)
                     ctx.preset = preset
                     try:
-                        with ResumedTracing():
+                        if traced:
+                            with ResumedTracing():
+                                harness(ctx, **params)
+                        else:
+                            # all data concrete, only choices symbolic: run the real code
+                            # natively, the solver still decides every choice
                             harness(ctx, **params)
                         status = VerificationStatus.CONFIRMED
                         if len(samples) < n_samples:
@@ -378,9 +393,10 @@ def explore(
                                 samples.append(m)
                     except Viol as v:
                         viol = v
-                        with ResumedTracing():
-                            space.detach_path()
-                        model = ctx.model(realize_objects=True)
+                        if traced:
+                            with ResumedTracing():
+                                space.detach_path()
+                        model = ctx.model(realize_objects=traced)
                         status = VerificationStatus.REFUTED
                     except Known as k:
                         known[k.fid] += 1
@@ -401,9 +417,10 @@ def explore(
                         else:
                             viol = Viol('harness-exception', f'{type(e).__name__}: {_safe_str(e)}')
                             result['traceback'] = traceback.format_exc()[-3000:]
-                            with ResumedTracing():
-                                space.detach_path()
-                            model = ctx.model(realize_objects=True)
+                            if traced:
+                                with ResumedTracing():
+                                    space.detach_path()
+                            model = ctx.model(realize_objects=traced)
                             status = VerificationStatus.REFUTED
             except NotDeterministic as e:
                 result.update(status='inconclusive', reason='NotDeterministic: ' + _safe_str(e),
